@@ -51,7 +51,7 @@ def pre_build():
 
 # ------------------------------------------------------------------ data sets and settings
 def gen_dataset(rs, tier, idx):
-    """class-dependent feature distributions; every class has at least 6 rows; labels 0..k-1."""
+    """class-dependent feature distributions; every class has at least 6 rows; labels 0..k-1 or (k >= 3) k arbitrary codes in 0..8."""
     k = [2, 3, 4][idx % 3]
     regime = ["binary", "discrete", "mixed", "binary-clt"][(idx // 3) % 4]
     nf = int(rs.randint(2, 5 if tier == "quick" else 7))
@@ -90,6 +90,9 @@ def gen_dataset(rs, tier, idx):
             sd = rs.randint(2, 7, size=k) / 4.0
             X[:, j] = np.round((mu[y] + sd[y] * rs.randn(n)) * 8) / 8
     perm = rs.permutation(n)
+    if k >= 3 and idx % 2 == 1:            # multi-class labels need not be 0..k-1 (binary ones must be {0,1}: Bernoulli label leaf)
+        labels = np.sort(rs.choice(9, size=k, replace=False))
+        y = labels[y]
     return dict(k=k, regime=regime, kinds=kinds, X=X[perm], y=y[perm].astype(np.int64), ncat=ncat)
 
 
@@ -572,7 +575,7 @@ def main(tier, seed, replay=None):
     rep.cov["violation_classes"] = nviol
     if replay:
         print(open(replay).read()[:3000])
-    rep.cov["rule"] = ("data sets: 2/3/4 classes (labels 0..k-1, balanced and unbalanced priors), 2-4 (quick) / 2-6 features, regimes binary / "
+    rep.cov["rule"] = ("data sets: 2/3/4 classes (labels 0..k-1, for k >= 3 also non-contiguous codes; balanced and unbalanced priors), 2-4 (quick) / 2-6 features, regimes binary / "
                        "discrete (Bernoulli+Categorical) / mixed (+Gaussian) / binary with Chow-Liu leaves; learner settings: split_rows x split_cols x "
                        "min_rows_slice (incl. no row split) x min_cols_slice x seed; query batches of size = classes, = classes + 1..5 and 1 or 2*classes+1, "
                        "each without and with NaNs (incl. an all-NaN row); one evaluation = one (fitted model, batch, row) compared inside Coq "
